@@ -28,7 +28,7 @@ TRUSTED = ["ocaml/driver/c04.ml: classification of a strict-check failure into a
 def streams(tier, seed):
     if tier == "quick":
         return [dict(tag="main", count=60, seed=seed)]
-    return [dict(tag="main%d" % k, count=800, seed=seed * 1000 + k, extra={"real-every": 40}) for k in range(5)]
+    return [dict(tag="main%d" % k, count=600, seed=seed * 1000 + k, extra={"real-every": 40}) for k in range(4)]
 
 
 def search_streams(tier, seed, diffs):
